@@ -1294,6 +1294,23 @@ where
 		}
 	}
 
+	/// Verification hook (read-only): the channel and update id of every queued deferred operation,
+	/// oldest first (a queued new monitor is listed with its latest update id).
+	#[cfg(feature = "_verif_hooks")]
+	pub fn verif_pending_ops(&self) -> Vec<(ChannelId, u64)> {
+		self.pending_ops
+			.lock()
+			.unwrap()
+			.iter()
+			.map(|op| match op {
+				PendingMonitorOp::NewMonitor { channel_id, monitor } => {
+					(*channel_id, monitor.get_latest_update_id())
+				},
+				PendingMonitorOp::Update { channel_id, update } => (*channel_id, update.update_id),
+			})
+			.collect()
+	}
+
 	/// Returns the number of pending monitor operations queued for later execution.
 	///
 	/// When the `ChainMonitor` is constructed with `deferred` set to `true`,
